@@ -62,6 +62,18 @@ def plan(tier, seed):
         tasks.append(('tokenize', {'n': 2, 'tpl': tpl}))
     tasks.append(('tokenize', {'n': 2, 'tpl': 'sci'}))
     tasks.append(('tokenize', {'n': 2, 'tpl': 'hex'}))
+    # L2 moved blocks and whitespace-only reformats
+    for pre in (0, 1, 2):
+        for tail in (False, True):
+            for mid in ('s1', 's2'):
+                tasks.append(('update_special', {'family': 'move', 'pre': pre, 'tail': tail, 'mid': mid}))
+    for w1 in WS_FORMS:
+        for w2 in WS_FORMS:
+            if w1 == w2:
+                continue
+            tasks.append(('update_special', {'family': 'ws', 'w1': w1, 'w2': w2, 'trail': None, 'indent': False}))
+    for tr in WS_FORMS:
+        tasks.append(('update_special', {'family': 'ws', 'w1': 'sp', 'w2': 'sp', 'trail': tr, 'indent': tr in ('sp', 'nbsp')}))
     # L3 line projection + round trip
     for n in range(0, nmax + 2):
         for lay in range(10):
@@ -496,7 +508,91 @@ def ob_update(h, shape):
     h.sample = h.witness()
 
 
-OBLIGATIONS = {'tokenize': ob_tokenize, 'lines': ob_lines, 'update': ob_update}
+WS_FORMS = {'sp': [32], 'tab': [9], 'vt': [11], 'nbsp': [0xC2, 0xA0], 'ideo': [0xE3, 0x80, 0x80], 'em': [0xE2, 0x80, 0x83]}
+
+
+def _run_update(h, old, new, lay, who):
+    P = h.P
+    M = P.M
+    attrs = [mk_attr(M, a, b, w, t) for (a, b, w, t) in lay]
+    av = VecV(attrs)
+    tr = P.call_named(AT + '::AttributionTracker::new', [])
+    r = P.call_named(AT + '::AttributionTracker::update_attributions',
+                     [Ref(Cell(tr)), mk_str(old), mk_str(new), SliceRef(av, 0, len(attrs)), pystr(who), Sc(20, 128)])
+    if r.var != 'Ok':
+        return None, None, None, None
+    out = r.f[0]
+    names = M.src.struct_fields(ATTR)
+    res = []
+    for at in out.e:
+        s_ = at.f[names.index('start')]
+        e_ = at.f[names.index('end')]
+        if not (s_.concrete and e_.concrete):
+            raise Unsupported('symbolic output range')
+        res.append((s_.v, e_.v, concrete_bytes(as_bytes(at.f[names.index('author_id')])).decode(), at.f[names.index('ts')].v))
+    lb = P.call_named(AT + '::attributions_to_line_attributions', [SliceRef(av, 0, len(attrs)), mk_str(old)])
+    la = P.call_named(AT + '::attributions_to_line_attributions', [SliceRef(out, 0, len(out.e)), mk_str(new)])
+    before, _ = expand_line_attrs(P, lb, M)
+    after, ok_struct = expand_line_attrs(P, la, M)
+    return res, {l: a for l, a in before.items() if a != 'human'}, {l: a for l, a in after.items() if a != 'human'}, ok_struct
+
+
+def ob_update_special(h, shape):
+    """moved blocks and whitespace-only reformats (texts are templates; the symbolic part is small)"""
+    P = h.P
+    M = P.M
+    who = ['human', 's2'][h.choice(2)]
+    if shape['family'] == 'move':
+        npre = shape['pre']
+        pre = []
+        for i in range(npre):
+            pre += [120, h.byte_in('x%d' % i, [97, 98, 61])] + [10]
+        block = [list(b'A1 = 1\n'), list(b'B2 = 2\n'), list(b'C3 = 3\n')]
+        # the stationary part is longer than the block, so the diff keeps it and the block is what moves
+        anchor = list(b'm1()\nm2()\nm3()\nm4()\n')
+        tail = list(b'zz\n') if shape.get('tail') else []
+        old = pre + sum(block, []) + anchor + tail
+        new = anchor + sum(block, []) + tail
+        b0 = len(pre)
+        authors = ['s1', shape.get('mid', 's1'), 's1']
+        lay = []
+        pos = b0
+        for ln, a in zip(block, authors):
+            lay.append((pos, pos + len(ln), a, 5))
+            pos += len(ln)
+        keep = {npre + 1 + i: (5 + i, authors[i]) for i in range(3)}     # old line -> (new line, session)
+    else:
+        w1 = WS_FORMS[shape['w1']]
+        w2 = WS_FORMS[shape['w2']]
+        trail = WS_FORMS[shape['trail']] if shape.get('trail') else []
+        t0 = h.byte_in('t0', [97, 98])
+        old = [t0] + w1 + list(b'b') + trail + [10] + list(b'  c\n')
+        new = [t0] + w2 + list(b'b') + [10] + (list(b'\tc\n') if shape.get('indent') else list(b'  c\n'))
+        lay = [(0, len(old), 's1', 5)]
+        keep = {1: (1, 's1'), 2: (2, 's1')}
+    h.inputs_struct = {'old': ByteStr(old), 'new': ByteStr(new), 'attributions': [list(x) for x in lay], 'author': who, 'ts': 20, 'keep': {str(k): list(v) for k, v in keep.items()}}
+    try:
+        res, before, after, ok_struct = _run_update(h, old, new, lay, who)
+    except Panic as e:
+        h.panic('L2-no-panic', e.msg)
+        return
+    if res is None:
+        h.require(False, 'L2-ok', 'update_attributions returned Err')
+        return
+    L = len(new)
+    okb = all(s_ <= e_ <= L and char_start(new, s_) and char_start(new, e_) for (s_, e_, w_, t_) in res)
+    h.require(okb, 'L2-ranges-inside-new-text', 'an output range is inverted, beyond the new text or off a char boundary: %r' % (res,))
+    nl = len(ref_lines(P, new))
+    h.require(ok_struct and all(1 <= l <= nl for l in after), 'L2-lines-wellformed', 'projection of the result is malformed')
+    wrong = [(ol, nl_, a, after.get(nl_)) for ol, (nl_, a) in keep.items() if after.get(nl_) != a]
+    if shape['family'] == 'move':
+        h.require(not wrong, 'L2-moved-block-keeps-its-authors', 'moved lines (old line, new line, session before, session after): %r' % wrong)
+    else:
+        h.require(not wrong, 'L2-whitespace-only-reformat-keeps-line-authors', 'lines whose only change is whitespace changed author (old line, new line, before, after): %r' % wrong)
+    h.sample = h.witness()
+
+
+OBLIGATIONS = {'tokenize': ob_tokenize, 'lines': ob_lines, 'update': ob_update, 'update_special': ob_update_special}
 
 
 # ---------------------------------------------------------------------------
@@ -609,6 +705,10 @@ def replay(v, native):
             if nonblank and after.get(li + 1) != (None if who == 'human' else who):
                 wrong = True
         bad['L2-new-text-belongs-to-author'] = wrong
+    if 'keep' in inp:
+        wrong = [(k, nl_, a, after.get(nl_)) for k, (nl_, a) in inp['keep'].items() if after.get(nl_) != a]
+        bad['L2-moved-block-keeps-its-authors'] = bool(wrong)
+        bad['L2-whitespace-only-reformat-keeps-line-authors'] = bool(wrong)
     edit = (v.get('shape') or {}).get('edit')
     if edit and edit[0] == 'ins':
         who = inp['author']
